@@ -381,12 +381,15 @@ def _task_swap(args):
     # a second, redundant connect() on a client that is connected (documented as safe): the stream goes on undisturbed
     stream = b"".join(b"".join(b) for b in bursts)
     exp_all = [e for b in exp for e in b]
-    for seg in ("whole", "bytes"):
+    for seg, between in (("whole", "connect"), ("bytes", "connect"), ("whole", "send"), ("bytes", "send"), ("whole", "bad_send")):
         script = [it_connect]
         for i, b in enumerate(bursts):
             data = b"".join(b)
             script += [vloop.it_feed(data, 0)] if seg == "whole" else [vloop.it_feed(data[j:j + 1], 0) for j in range(len(data))]
-            script.append(vloop.sp_connect)
+            # between the bursts the application calls connect() again, sends a message (the Actisense client has no encoder
+            # and refuses), or tries to send one that cannot be encoded: none of it may disturb the incoming stream
+            script.append(vloop.sp_connect if between == "connect" else
+                          vloop.it_send((lambda: clientkit.heading_message(5)) if between == "send" else (lambda: clientkit.bad_messages()["unknown_pgn"])))
         sess = vloop.Session(kind=kind, script=script)
         o = sess.run()
         stats["runs"] += 1
@@ -400,8 +403,8 @@ def _task_swap(args):
                    f"{len(exp_all)} messages sent on one connection, {len(gotv)} delivered, {len(sess.gw.conns)} connection(s) opened, status {[n for _, n in o.status]}")
         if res:
             vios.append({"kind": res[0], "facts": dict(res[1], client=kind), "signature": f"reconnect2:{res[0]}:{kind}",
-                         "detail": f"[{kind} connect() called again after every burst while connected; bursts fed {seg}] {res[2]}",
-                         "case": {"client": kind, "swap": True, "initial": "redundant_connect", "seg": seg}})
+                         "detail": f"[{kind} {between}() called after every burst while connected; bursts fed {seg}] {res[2]}",
+                         "case": {"client": kind, "swap": True, "initial": "redundant_" + between, "seg": seg}})
     stats["outcomes"] = len(stats["outcomes"])
     return stats, vios, sample
 
